@@ -39,6 +39,7 @@ var checks = map[string]struct {
 	"C17": {props.C17, "a case is one (root spelling, import path) pair of the universe TLC writes from ImportPath.tla (all paths of up to 3/4 segments over a, b, c, ., .., empty, ..x, d.x, 's p', root, root2, with and without a leading slash; five spellings of the root) resolved by the real FileImportLocator over a real directory tree holding marked files inside and outside the root; a sample also through the import statement; distinct = distinct (root, path); non-trivial = more than one segment"},
 	"C20": {props.C20, "a case is one interpreter binary (filler length x content descriptor: '#' bytes and partial markers anchored at the start of the file and at every distance from the marker; lengths over more than two periods of block + extension, random longer ones) packed with one of four project trees by the real packer and started through the real RunPackedBinary; distinct = distinct (length, content, project); non-trivial = non-empty binary"},
 	"C19": {props.C19, "a case is one call (signature x argument vector) through the real ECALFunctionAdapter - directly or from an ECAL program - of a synthetic Go function built by reflection (every parameter kind alone and in pairs, random triples, variadic shapes incl. the plugin shape, 13 result lists, trailing error absent / nil / non-nil, panicking functions) with every argument vector of length 0..2 (3 in the thorough tier, random 3 and 4) over 25 ECAL values (19 numbers incl. halves, range borders, huge, NaN, Inf); plus every function of the generated stdlib with the same vectors; distinct = distinct (signature, vector); non-trivial = at least one argument"},
+	"C15": {props.C15, "a case is one behaviour of Debugger.tla (threads of a real program whose visits were recorded from the interpreter, interleaved with client commands continue x4 / stop threads / set / remove breakpoint) followed step by step on the real debugger through gates at every debugger visit, suspension and resumption, or one debugged run of a program (functions, recursion, loops, try, sinks on a pool with mutexes, generated control-flow programs) with seeded breakpoints and a client which continues every suspended thread with a seeded command, compared with the plain run; distinct = distinct behaviour / (program, breakpoints, repetition); non-trivial = more than 4 steps"},
 	"C16": {props.C16, "a case is one command line given to the real debugger's command handler in one of seven state classes (nothing executed, thread running, suspended at top level / inside nested calls / on an error / with awkward values in scope incl. containers which contain themselves, finished): every line of the universe TLC writes from DebugCmd.tla (12 command words x argument vectors of up to 4 tokens from per-position token classes) in every state class, plus random command sequences which follow the thread through its states; distinct = distinct (state, line); non-trivial = at least one argument"},
 	"C09": {props.C09, "a case is one execution of the real thread pool under one schedule (release sequence of the gate scheduler, or a free run); distinct = distinct (scenario, schedule); non-trivial = more than 3 scheduling decisions"},
 	"C10": {props.C10, "a case is one monitor history (model behaviour replayed / random history recorded) or one execution of a cascade program on the real processor under one schedule; distinct = distinct history or (program, schedule); non-trivial = more than 3 operations / more than 8 property-level events"},
